@@ -151,7 +151,9 @@ pub fn run(ctx: &Ctx) -> Outcome {
 /// window `(t - period, t]`, the lenient reading); a request that is not accepted gets an error
 /// response on its channel (not silence, not success); a dial-back that is still in flight keeps its
 /// response channel (an unrelated connection of the peer neither drops nor answers it) and is answered
-/// exactly when it finishes.
+/// exactly when it finishes; a refusal needs a reason: an ongoing dial-back of the peer, or peer_max /
+/// global_max probes accepted within the last period (closed window, so both boundary readings are
+/// accepted) — explored with Config::throttle_server_period below and above the clients period.
 mod throttle {
     use kit::ids::peer;
     use libp2p_autonat::{Behaviour, Config};
@@ -215,9 +217,12 @@ mod throttle {
     }
 
     impl Sys {
-        pub fn new() -> Self {
+        /// `server_period_ms`: Config::throttle_server_period (a *client-role* setting that must not
+        /// influence the server's throttling of its clients)
+        pub fn new(server_period_ms: u64) -> Self {
             mc::vclock::reset();
             let cfg = Config {
+                throttle_server_period: Duration::from_millis(server_period_ms),
                 boot_delay: Duration::from_secs(1_000_000_000),
                 retry_interval: Duration::from_secs(1_000_000_000),
                 refresh_interval: Duration::from_secs(1_000_000_000),
@@ -334,6 +339,14 @@ mod throttle {
                         self.accepted.push((*i, self.now_ms));
                         self.ongoing[*i as usize] = Some((dialed_addr(*i), probe));
                     } else {
+                        // the limits are per clients period: a refusal needs a reason. Probes of age <= period
+                        // (closed window, the strict reading) may still count; older ones may not.
+                        let cwin = |t: u64, now: u64| now - t <= PERIOD_MS;
+                        let peer_c = self.accepted.iter().filter(|(q, t)| q == i && cwin(*t, self.now_ms)).count();
+                        let all_c = self.accepted.iter().filter(|(_, t)| cwin(*t, self.now_ms)).count();
+                        if !was_ongoing && peer_c < PEER_MAX && all_c < GLOBAL_MAX {
+                            return Err(format!("request-refused-without-throttle-reason :: peer {i}: refused ({resp:?}) at {} ms although no dial-back is ongoing and only {peer_c}/{PEER_MAX} probes of the peer and {all_c}/{GLOBAL_MAX} in total were accepted within the last {PERIOD_MS} ms; accepted {:?}", self.now_ms, self.accepted));
+                        }
                         if was_ongoing {
                             REFUSED_ONGOING.fetch_add(1, SeqCst);
                         } else if all_recent >= GLOBAL_MAX {
@@ -421,18 +434,32 @@ mod throttle {
     }
 
     pub fn replay(case: &Value, out: &mut Outcome) {
-        if let Err(m) = bfs::replay_history(Sys::new(), case) {
+        let sp = case["cfg"]["server_period_ms"].as_u64().unwrap_or(90_000);
+        if let Err(m) = bfs::replay_history(Sys::new(sp), case) {
             out.violation(bfs::signature_of(&m), m, case.clone());
         }
     }
 
     pub fn run(ctx: &Ctx, out: &mut Outcome) {
-        let cfg = json!({"part": "throttle", "limits": "global 2 / peer 1 / period 1000 ms"});
         let depth = ctx.tier.pick(8, 11);
-        let (st, v) = bfs::bfs_replay(Sys::new, depth, 2_000_000);
-        bfs::record(out, &cfg, &st, &v);
-        out.count("throttle_bfs_states", st.states);
-        out.count("throttle_bfs_transitions", st.transitions);
+        let ddepth = ctx.tier.pick(4, 5);
+        // Config::throttle_server_period belongs to the client role; the server-side limits are
+        // judged with it below and above the clients period
+        for sp in [0u64, 5_000] {
+            let cfg = json!({"part": "throttle", "limits": "global 2 / peer 1 / period 1000 ms", "server_period_ms": sp});
+            let (st, v) = bfs::bfs_replay(|| Sys::new(sp), depth, 2_000_000);
+            bfs::record(out, &cfg, &st, &v);
+            out.count("throttle_bfs_states", st.states);
+            out.count("throttle_bfs_transitions", st.transitions);
+            let (n, capped, v2) = bfs::dfs_all(|| Sys::new(sp), ddepth, 3_000_000);
+            out.count("throttle_dfs_companion_sequences", n);
+            out.evaluations += n;
+            out.traces += n;
+            if capped {
+                out.caps.push(format!("throttle dfs companion capped at {n} sequences"));
+            }
+            bfs::record(out, &cfg, &Default::default(), &v2);
+        }
         out.count("throttle_probes_accepted", ACCEPTED.load(SeqCst));
         out.count("throttle_refused_dial_back_ongoing", REFUSED_ONGOING.load(SeqCst));
         out.count("throttle_refused_per_peer_limit", REFUSED_PEER.load(SeqCst));
@@ -442,15 +469,6 @@ mod throttle {
         if ACCEPTED.load(SeqCst) == 0 || REFUSED_ONGOING.load(SeqCst) == 0 || REFUSED_PEER.load(SeqCst) == 0 || REFUSED_GLOBAL.load(SeqCst) == 0 || ACCEPTED_AFTER_WINDOW.load(SeqCst) == 0 || UNRELATED_CONNS.load(SeqCst) == 0 {
             out.machinery("vacuity (throttling): exploration did not reach every one of: accepted probe / refusal while ongoing / per-peer limit / global limit / re-acceptance after the window");
         }
-        let ddepth = ctx.tier.pick(4, 5);
-        let (n, capped, v2) = bfs::dfs_all(Sys::new, ddepth, 3_000_000);
-        out.count("throttle_dfs_companion_sequences", n);
-        out.evaluations += n;
-        out.traces += n;
-        if capped {
-            out.caps.push(format!("throttle dfs companion capped at {n} sequences"));
-        }
-        bfs::record(out, &cfg, &Default::default(), &v2);
-        out.notes.push(format!("throttling part: bfs depth {depth}, dfs companion depth {ddepth}"));
+        out.notes.push(format!("throttling part: bfs depth {depth}, dfs companion depth {ddepth}, each with throttle_server_period 0 and 5 s"));
     }
 }
